@@ -318,8 +318,17 @@ def check_molden_mo_blocks(ctx, rid):
             if not lines or lines[0].strip() != "[MO]":
                 bad = f"{kind}: the section does not start with [MO]"
                 break
-            lit = Rec(licls, filename="F", fh=iter(lines[1:]), lineno=0, stack=[])
-            (oa, ca, ea, ia), (ob, cb, eb, ib) = AccessorEval(prog, licls, limit=20000).run_free(rd, [lit], {})
+            # sections may come in any order: another section header may follow the orbitals directly (or after an
+            # empty line) and must still be there for the section loop of the loader
+            for sep in ([], ["\n"]):
+                lit = Rec(licls, filename="F", fh=iter(lines[1:] + sep + ["[5D]\n", "[7F]\n"]), lineno=0, stack=[])
+                (oa, ca, ea, ia), (ob, cb, eb, ib) = AccessorEval(prog, licls, limit=20000).run_free(rd, [lit], {})
+                rest = list(reversed(lit.fields["stack"])) + list(lit.fields["fh"])
+                if not any(isinstance(r, str) and r.strip() == "[5D]" for r in rest):
+                    bad = f"{kind}: the section header that follows the orbitals" + (" after an empty line" if sep else "") + " is consumed by the [MO] reader: the loader never sees that section (a [5D] tag after [MO] is lost, pure shells stay Cartesian)"
+                    break
+            if bad:
+                break
         except Raised as exc:
             bad = f"{kind}: evaluation raises {exc.args[0]}"
             break
